@@ -63,7 +63,7 @@ def gen_core(rnd):
     """multi-step patterns that are always part of the pool (every kind, both roles, a short and a long interval)"""
     out = []
     for kind in ALL_KINDS:
-        reps = 4 if kind in ("whilewaiting", "midcall", "stop") else 1
+        reps = 4 if kind in ("whilewaiting", "midcall", "stop", "logoutnoanswer") else 1
         out += gen_timing(rnd, reps, kinds=[kind], Ns=(1, 30), tag="core")
     return out
 
@@ -132,7 +132,7 @@ def gen_timing(rnd, n_per, kinds=None, Ns=(1, 2, 3, 5, 10, 30, 60), tag="tm"):
                 elif kind == "logoutnoanswer":
                     # a local Logout the peer never answers, then more traffic
                     st += [act("advance", ms=rnd.choice([1, T // 2])), act("llogout"), act("advance", ms=rnd.choice([tin + tin // 10 + 1, 2 * tin + tin // 4, T]))]
-                    st += [p(rnd.choice(["hbt", "app", "testreq", "resend"]), id=[73], b=1, e=0), p("hbt"), act("advance", ms=tin + tin // 10 + 1)]
+                    st += [p(rnd.choice(["hbt", "app", "testreq", "resend", "logout", "logout"]), id=[73], b=1, e=0), p("hbt"), act("advance", ms=tin + tin // 10 + 1)]
                 elif kind == "burststeady":
                     # two inbound messages a little more than the tolerance apart, then the peer speaks again exactly N after the
                     # second one, several times: never silent for longer than N, so never probed
@@ -411,6 +411,8 @@ def common_pool(run, rnd, quick):
         scns += tlc_scenarios(run, role, "admin", 2 if quick else 3, keep=(250 if quick else 4000), rnd=rnd)
         scns += tlc_scenarios(run, role, "time", 3 if quick else 4, keep=(150 if quick else 3000), rnd=rnd, hbcfg=2)
         scns += tlc_scenarios(run, role, "mix", 7, simulate="num=%d" % (80 if quick else 1500), rnd=rnd)
+    # limits whose lower bound is above 1 (and an upper bound below the usual one)
+    scns += tlc_scenarios(run, "acceptor", "logon", 2 if quick else 3, keep=(150 if quick else 3000), rnd=rnd, hbmin=3, hbmax=5, hbcfg=4)
     scns += gen_core(rnd)
     scns += gen_timing(rnd, 2 if quick else 25)
     scns += gen_ids(rnd, 10 if quick else 400)
@@ -485,6 +487,9 @@ def check(prop, tier, seed):
     run.traces += 2 * len(duplex)
     run.extra["duplex_runs_two_real_sessions"] = len(duplex)
     rejects = validate(run, traces)
+    # the repository's own integration tests, traced through the verif-tagged hooks and validated event by event
+    import repo_tests
+    rejects += repo_tests.check(run)
     mine = [r for r in rejects if r[0] == prop]
     others = {}
     for r in rejects:
